@@ -4,7 +4,7 @@ from kv import Case, xn, xb, xl, xlist, xopt, xbool
 
 ID = "C07"
 MODULE = "C07"
-IMPORTS = "Bytes RustInt Http1Read Http1ReadProofs Http1ReadParseProofs Http1ReadLocalProofs"
+IMPORTS = "Bytes RustInt Http1Read Http1ReadProofs Http1ReadParseProofs Http1ReadLocalProofs Http1ReadLfProofs"
 PROFILES = ("dev", "nochk")
 KERNEL_SAMPLE = 30
 THEOREMS = []   # filled in below (kept at the end of the file for readability)
@@ -388,11 +388,14 @@ def spec_ok(c, i, s):
     if c.comp == "h1.request":
         xs = kv.xparse(s)
         xi = kv.xparse(i)
-        want = xs[1][1][1]                   # fields + body outcome
+        want = xs[1][1][1]                   # fields + body outcome + head end
         if xi[1][0] != ("N", 0):
             return False
         got = xi[1][1][1]
-        return got[0:6] + [got[7]] == want
+        k = want[7][1]
+        stream = c.x[1][4][1]
+        early = got[6][1]
+        return got[0:6] + [got[7]] == want[0:7] and early == stream[k:k + len(early)]
     return i == s
 
 
@@ -460,21 +463,23 @@ ASSUMPTIONS = [
 TRUSTED = ["modelled: async/src/lib.rs read_more/read_headers/contains_two_newlines/read::request, utils/src/parse.rs headers/version, "
            "utils/src/lib.rs valid_method/valid_version/get_body_length_request, src/application.rs Http1Body::read_to_bytes over "
            "async/src/lib.rs read_to_end_or_max and tokio's Take"]
-LEVEL_TEXT = ("Machine-checked Coq theorems (9, no axioms) over a byte-level executable model of the HTTP/1 request reader (read loop with buffer "
-              "growth through an arbitrary growth function, request-line state machine, header parser with its absolute indices, URI assembly, "
-              "body length, body reader) driven by an arbitrary read schedule (list of burst sizes): parse_print - for every request of the grammar "
-              "(token method of <= 7 letters, target without SP/CR/LF, HTTP/1.0|1.1, header lines name ':' SP^k value CRLF for every k >= 0, names "
-              "unique up to case, visible-ASCII values) followed by any bytes, every schedule delivering head + body, every growth function and "
-              "every end mode, the reader returns exactly method, path, query, version, header list, authority and the first min(content-length, "
-              "limit) bytes after the blank line; parse_print_head - the same for the parser alone with the bytes after the head returned "
-              "unchanged; schedule_independent - two schedules/growth functions/end modes give the same request and body; segmentation_blind - "
-              "for EVERY byte stream the observable result (fields + body outcome, or the error class) equals serve_spec of the delivered bytes, a "
-              "function without schedule or capacities (so also malformed and bare-LF heads are read independently of the segmentation); "
-              "head_limit / stalled_head - no blank line within max_len (16384) bytes resp. within the delivered bytes => an error, for every "
-              "schedule incl. 0-byte reads and every growth function whatsoever; body_exact / body_any_schedule - read_to_bytes returns exactly "
-              "min(content-length, limit) bytes and leaves the rest of the stream (the next request) on the connection, short bodies end as "
-              "EOF-prefix / TimedOut / I/O error. All by induction over the stream / the schedule with invariants on the reader state, none by "
-              "enumeration. The model is tied to the code on every run by a differential run of the real functions over a scripted AsyncRead.")
+LEVEL_TEXT = ("Machine-checked Coq theorems (11, no axioms) over a byte-level executable model of the HTTP/1 request reader (read loop with "
+              "buffer growth through an arbitrary growth function, request-line state machine, header parser with its absolute indices, URI "
+              "assembly, body length, body reader) driven by an arbitrary read schedule (list of burst sizes). parse_print: for every request "
+              "of the grammar (token method of <= 7 letters, target without SP/CR/LF, HTTP/1.0|1.1, header lines name ':' SP^k value CRLF for "
+              "every k >= 0, names unique up to case, visible-ASCII values) followed by any bytes, every schedule delivering head + body, every "
+              "growth function and every end mode, the reader returns exactly method, path, query, version, header list, authority and the "
+              "first min(content-length, limit) bytes after the blank line. parse_print_head: the same for the parser alone, with the bytes "
+              "after the head returned unchanged. parse_print_lf / parse_print_head_lf: the same when the request line, any of the header "
+              "lines and the blank line end in a bare LF instead of CRLF (what the code accepts). schedule_independent: two schedules / "
+              "growth functions / end modes give the same request and body. segmentation_blind: for EVERY byte stream the observable result "
+              "(fields + body outcome, or the error class) equals serve_spec of the delivered bytes, a function without schedule or "
+              "capacities, so malformed heads too are read independently of the segmentation (schedule_independent_any_stream). head_limit / "
+              "stalled_head: no blank line within max_len (16384) bytes resp. within the delivered bytes => an error, for every schedule "
+              "incl. 0-byte reads and every growth function whatsoever. body_exact / body_any_schedule: read_to_bytes returns exactly "
+              "min(content-length, limit) bytes and leaves the rest of the stream (the next request) on the connection; short bodies end as "
+              "EOF-prefix / TimedOut / I/O error. All by induction over the stream / the schedule with invariants on the reader state, none "
+              "by enumeration. The model is tied to the code on every run by a differential run of the real functions over a scripted AsyncRead.")
 LEVEL_NOTE = ("Trusted: Coq kernel, extraction (reduced by the in-kernel recheck sample), the hand transcription of the anchored Rust functions as "
               "validated by the differential run (exact equality incl. early bytes and bytes consumed), the http/bytes/tokio crates below the "
               "modelled functions (http's Uri/HeaderName/HeaderValue/Method checks are transcribed, parse_print takes the Uri verdict as the "
@@ -491,6 +496,10 @@ THEOREMS = [
      r"forall grow mode https dh (max_len : nat) limit (g : greq) rest (sched : list nat) e, grow_ok grow -> sched_pos sched -> greq_ok g = true -> (length (print_head g) <= max_len)%nat -> expect https dh limit g rest = Some e -> (NEED <= length rest)%nat -> (length (print_head g) + NEED <= sum_sched sched)%nat -> exists sv, serve grow mode https dh max_len limit (print_head g ++ rest) sched = Ok sv /\ observed sv = Some e".replace("NEED", NEED)),
     ("parse_print_head",
      r"forall https dh (g : greq) extra host auth path query, greq_ok g = true -> g_host dh g = Some host -> parse_uri https host (g_target g) = Some (auth, path, query) -> parse_request https dh (print_head g ++ extra) = Ok (mk_request (g_method g) path query (if g_v11 g then 11 else 10) (g_hmap g) auth extra)"),
+    ("parse_print_lf",
+     r"forall grow mode https dh (max_len : nat) limit (l0 : bool) (fl : list bool) (lb : bool) (g : greq) rest (sched : list nat) e, grow_ok grow -> sched_pos sched -> greq_ok g = true -> (length (print_head_e l0 fl lb g) <= max_len)%nat -> expect https dh limit g rest = Some e -> (NEED <= length rest)%nat -> (length (print_head_e l0 fl lb g) + NEED <= sum_sched sched)%nat -> exists sv, serve grow mode https dh max_len limit (print_head_e l0 fl lb g ++ rest) sched = Ok sv /\ observed sv = Some e".replace("NEED", NEED)),
+    ("parse_print_head_lf",
+     r"forall https dh (l0 : bool) (fl : list bool) (lb : bool) (g : greq) extra host auth path query, greq_ok g = true -> g_host dh g = Some host -> parse_uri https host (g_target g) = Some (auth, path, query) -> parse_request https dh (print_head_e l0 fl lb g ++ extra) = Ok (mk_request (g_method g) path query (if g_v11 g then 11 else 10) (g_hmap g) auth extra)"),
     ("schedule_independent",
      r"forall grow1 grow2 mode1 mode2 https dh (max_len : nat) limit (g : greq) rest (sched1 sched2 : list nat), grow_ok grow1 -> grow_ok grow2 -> sched_pos sched1 -> sched_pos sched2 -> greq_ok g = true -> (length (print_head g) <= max_len)%nat -> expect https dh limit g rest <> None -> (NEED <= length rest)%nat -> (length (print_head g) + NEED <= sum_sched sched1)%nat -> (length (print_head g) + NEED <= sum_sched sched2)%nat -> exists sv1 sv2, serve grow1 mode1 https dh max_len limit (print_head g ++ rest) sched1 = Ok sv1 /\ serve grow2 mode2 https dh max_len limit (print_head g ++ rest) sched2 = Ok sv2 /\ observed sv1 = observed sv2 /\ observed sv1 <> None".replace("NEED", NEED)),
     ("segmentation_blind",
